@@ -32,19 +32,18 @@ MilF5Star(k, opc, rand) == SubSeq(MilOutN(k, opc, rand, 96, 8), 1, 6)
 \* AUTN = (SQN xor AK) || AMF || MAC-A
 MilAutn(k, opc, rand, sqn, amf) == XorBytes(sqn, MilF5(k, opc, rand)) \o amf \o MilF1(k, opc, rand, sqn, amf)
 
-(* USIM check (TS 33.102 6.3.3): verdict "ok" iff MAC-A is f1 over the     *)
-(* de-concealed SQN and the AMF, and that SQN is greater than SQNms;       *)
-(* "mac" when MAC-A differs; "sync" when the SQN is not greater.           *)
+(* USIM check (TS 33.102 6.3.3): macOk iff MAC-A is f1 over the           *)
+(* de-concealed SQN and the AMF; fresh iff that SQN is greater than SQNms. *)
 UsimCheck(k, opc, rand, autn, sqnms) ==
    LET ak == MilF5(k, opc, rand)
        sqn == XorBytes(SubSeq(autn, 1, 6), ak)
        amf == SubSeq(autn, 7, 8)
        mac == SubSeq(autn, 9, 16)
-   IN IF mac # MilF1(k, opc, rand, sqn, amf) THEN [verdict |-> "mac"]
-      ELSE IF BigCmp(sqn, sqnms) <= 0
-           THEN [verdict |-> "sync",
-                 auts |-> XorBytes(sqnms, MilF5Star(k, opc, rand)) \o MilF1Star(k, opc, rand, sqnms, <<0, 0>>)]
-           ELSE [verdict |-> "ok", res |-> MilF2(k, opc, rand), ck |-> MilF3(k, opc, rand), ik |-> MilF4(k, opc, rand)]
+   IN [macOk |-> mac = MilF1(k, opc, rand, sqn, amf),
+       fresh |-> BigCmp(sqn, sqnms) > 0,
+       sqn |-> sqn,
+       auts |-> XorBytes(sqnms, MilF5Star(k, opc, rand)) \o MilF1Star(k, opc, rand, sqnms, <<0, 0>>),
+       res |-> MilF2(k, opc, rand), ck |-> MilF3(k, opc, rand), ik |-> MilF4(k, opc, rand)]
 \* network-side AUTS check: returns [ok, sqnms]
 AutsCheck(k, opc, rand, auts) ==
    LET sqnms == XorBytes(SubSeq(auts, 1, 6), MilF5Star(k, opc, rand))
